@@ -28,7 +28,7 @@ def q_lit(v):
 
 class Unit:
     def __init__(self, path, cls, method, coq_name, params, ret, mapped=None, siblings=None, objects=None, poppable=(),
-                 effects=None, tail=None):
+                 effects=None, tail=None, rewrite=None):
         self.path, self.cls, self.method, self.coq_name = path, cls, method, coq_name
         self.params = params            # python name -> (coq name, type), in Coq argument order (dict keeps order)
         self.ret = ret                  # Q | Z | OQ
@@ -38,6 +38,7 @@ class Unit:
         self.poppable = tuple(poppable) # dict-valued locals on which `X.pop(None)` may be called; mapped keys then read "text|X,Y"
         self.effects = effects or {}    # exact source text of a statement that only has effects -> the statement standing for it
         self.tail = tail                # a statement appended to the body (the value of falling off the end)
+        self.rewrite = rewrite          # FunctionDef -> FunctionDef: a unit-specific, fail-closed reading of effect statements
 
 
 def coerce(term, ty, want):
@@ -125,6 +126,13 @@ class Tr:
                     and f.attr in ("floor", "ceil") and len(e.args) == 1 and not e.keywords):
                 t = coerce(*self.value(e.args[0], env), "Q")
                 return (f"(Qfloor {t})" if f.attr == "floor" else f"(Qceiling {t})", "Z")
+        if isinstance(e, ast.Compare) and len(e.ops) == 2 and isinstance(e.comparators[0], ast.Name):
+            c1 = ast.Compare(left=e.left, ops=[e.ops[0]], comparators=[e.comparators[0]])
+            c2 = ast.Compare(left=e.comparators[0], ops=[e.ops[1]], comparators=[e.comparators[1]])
+            (a, ta), (b, tb) = self.value(c1, env), self.value(c2, env)
+            if ta == "B" and tb == "B":
+                return (f"({a} && {b})", "B")
+            raise Unsupported("chained comparison " + txt[:80])
         if isinstance(e, ast.Compare) and len(e.ops) == 1:
             l, r, op = e.left, e.comparators[0], e.ops[0]
             if isinstance(r, ast.Constant) and r.value is None and isinstance(op, (ast.Is, ast.IsNot)):
@@ -166,6 +174,10 @@ class Tr:
             if ty == "OQ":
                 return f"(POk {t})"
             return f"(POk (Some {coerce(t, ty, 'Q')}))"
+        if want == "OZ":
+            if ty == "OZ":
+                return f"(POk {t})"
+            return f"(POk (Some {coerce(t, ty, 'Z')}))"
         return f"(POk {coerce(t, ty, want)})"
 
     def stmts(self, body, env, cont):
@@ -276,6 +288,8 @@ class Tr:
         if len(fns) != 1 or fns[0].decorator_list:
             raise Unsupported(f"method {u.method} not found exactly once (undecorated)")
         fn = fns[0]
+        if u.rewrite:
+            fn = u.rewrite(fn)
         if u.effects or u.tail:
             # effect blocks: a statement whose source text is pinned in the unit spec is replaced by the statement that stands for
             # it (each must occur exactly once); anything else that only has effects stays unsupported
@@ -301,7 +315,7 @@ class Tr:
             raise Unsupported(f"parameters of {u.method}: {py_params}")
         env = {n: v for n, v in u.params.items() if v[1] != "OBJ"}       # objects are only reachable through mapped expressions
         env["@bound"], env["@popped"] = (), ()
-        cty = {"Q": "Q", "Z": "Z", "B": "bool", "OQ": "option Q"}
+        cty = {"Q": "Q", "Z": "Z", "B": "bool", "OQ": "option Q", "OZ": "option Z"}
         # the same Coq argument may stand for several source texts
         binders = [f"({c} : {cty[t]})" for (c, t) in list(u.params.values()) + list(u.mapped.values()) if t != "OBJ"]
         # a mapped expression may be listed under several texts with the same Coq name: bind once
@@ -392,6 +406,107 @@ def halt_units():
     return [after, before]
 
 
+def _rewrite_stmts(fn, f):
+    """apply f to every statement list of fn (f: list of statements -> list of statements)"""
+    class W(ast.NodeTransformer):
+        def generic_visit(self, n):
+            super().generic_visit(n)
+            for fld in ("body", "orelse"):
+                if isinstance(getattr(n, fld, None), list) and getattr(n, fld) and isinstance(getattr(n, fld)[0], ast.stmt):
+                    setattr(n, fld, f(getattr(n, fld)))
+            return n
+    return W().visit(fn)
+
+
+def shock_units():
+    """C14.  FundamentalPriceShock.hooked_before_step_for_market: the two guards, then ONE call
+    `market.change_fundamental_price(scale=E)` - read as `return E` (what the call does with the scale is Market.change_fundamental_price,
+    modelled by hand).  OrderMistakeShock.hooked_before_order: the guards, then a run of attribute stores on the order - the rewritten
+    side, volume, price, time-to-live - which must be exactly [order.is_buy, order.kind = LIMIT_ORDER, order.volume, order.price,
+    order.ttl, self.triggerd = True]; one function is generated per stored value (and one saying whether the rule fires); where the rule
+    does nothing the order keeps what it had (`keep`)."""
+    f1 = "pams/events/fundamental_price_shock.py"
+
+    def call_to_return(fn):
+        hits = []
+
+        def f(stmts):
+            out = []
+            for st in stmts:
+                c = st.value if isinstance(st, ast.Expr) else None
+                if (isinstance(c, ast.Call) and ast.unparse(c.func) == "market.change_fundamental_price" and not c.args
+                        and len(c.keywords) == 1 and c.keywords[0].arg == "scale"):
+                    hits.append(1)
+                    out.append(ast.copy_location(ast.Return(value=c.keywords[0].value), st))
+                else:
+                    out.append(st)
+            return out
+        fn = _rewrite_stmts(fn, f)
+        if len(hits) != 1 or not isinstance(fn.body[-1], ast.Return):
+            raise Unsupported("exactly one final call market.change_fundamental_price(scale=...) expected")
+        return fn
+    fs = Unit(f1, "FundamentalPriceShock", "hooked_before_step_for_market", "fund_shock_scale_gen",
+              params={"simulator": ("simulator", "OBJ"), "market": ("market", "OBJ")}, ret="Q",
+              mapped={"market.get_time()": ("time", "Z"), "self.trigger_time": ("trigger", "Z"), "self.shock_time_length": ("len", "Z"),
+                      "market != self.target_market": ("not_target", "B"), "self.price_change_rate": ("rate", "Q")},
+              rewrite=call_to_return)
+    f2 = "pams/events/order_mistake_shock.py"
+    expected = ["order.is_buy", "order.kind", "order.volume", "order.price", "order.ttl", "self.triggerd"]
+    pinned = {"order.kind": "LIMIT_ORDER", "self.triggerd": "True"}
+
+    def stores_to_return(pick):
+        def rw(fn):
+            hits = []
+
+            def is_store(st):
+                return (isinstance(st, ast.Assign) and len(st.targets) == 1 and isinstance(st.targets[0], ast.Attribute)
+                        and isinstance(st.targets[0].value, ast.Name) and st.targets[0].value.id in ("order", "self"))
+
+            def f(stmts):
+                out, i = [], 0
+                while i < len(stmts):
+                    if is_store(stmts[i]):
+                        j = i
+                        while j < len(stmts) and is_store(stmts[j]):
+                            j += 1
+                        run = stmts[i:j]
+                        if [ast.unparse(x.targets[0]) for x in run] != expected or j != len(stmts):
+                            raise Unsupported("stores on the order: " + ", ".join(ast.unparse(x.targets[0]) for x in run))
+                        for x in run:
+                            k = ast.unparse(x.targets[0])
+                            if k in pinned and ast.unparse(x.value) != pinned[k]:
+                                raise Unsupported(f"{k} = {ast.unparse(x.value)}")
+                        hits.append(1)
+                        val = ast.Constant(value=True) if pick == "fires" else run[expected.index(pick)].value
+                        out.append(ast.copy_location(ast.Return(value=val), run[0]))
+                        i = j
+                    elif isinstance(stmts[i], ast.Return) and stmts[i].value is None:
+                        out.append(ast.copy_location(ast.Return(value=ast.Name(id="__keep", ctx=ast.Load())), stmts[i]))
+                        i += 1
+                    else:
+                        out.append(stmts[i])
+                        i += 1
+                return out
+            fn = _rewrite_stmts(fn, f)
+            if len(hits) != 1:
+                raise Unsupported("exactly one run of stores on the order expected")
+            return fn
+        return rw
+    common = {"order.market_id != self.target_market.market_id": ("other_market", "B"), "self.triggerd": ("spent", "B"),
+              "market.get_market_price()": ("base", "Q"), "self.price_change_rate": ("rate", "Q"),
+              "self.order_time_length": ("ttl", "Z"), "self.order_volume": ("vol", "Z")}
+    ms = []
+    for pick, name, ty, kty in (("fires", "mistake_fires_gen", "B", "B"), ("order.is_buy", "mistake_is_buy_gen", "B", "B"),
+                                ("order.volume", "mistake_volume_gen", "Z", "Z"), ("order.price", "mistake_price_gen", "OQ", "OQ"),
+                                ("order.ttl", "mistake_ttl_gen", "OZ", "OZ")):
+        ms.append(Unit(f2, "OrderMistakeShock", "hooked_before_order", name,
+                       params={"simulator": ("simulator", "OBJ"), "order": ("order", "OBJ")}, ret=ty,
+                       mapped={**common, "__keep": ("keep", kty)},
+                       objects={"market": "self.simulator.id2market[order.market_id]"},
+                       rewrite=stores_to_return(pick), tail="return __keep"))
+    return [fs] + ms
+
+
 def translate_all(repo, groups=("C15", "C19", "C03")):
     """groups: which units to emit - C15 (price limit), C19 (tick conversions), C03 (remain_executable_orders)"""
     out = ["(* GENERATED by harness/py2coq_arith.py - do not edit *)",
@@ -413,6 +528,8 @@ def translate_all(repo, groups=("C15", "C19", "C03")):
         todo.append(executable_unit())
     if "C16" in groups:
         todo += halt_units()
+    if "C14" in groups:
+        todo += shock_units()
     for u in todo:
         out.append(f"(* {u.path}: {u.cls}.{u.method} *)")
         out.append(Tr(u).translate(repo))
